@@ -92,6 +92,8 @@ class Stmt:
         self.table_cols = []   # create table: (name, type, rest-text)
         self.holes = []
         self.subselect = None  # for DELETE ... IN (SELECT ...)
+        self.partial = False
+        self.error = None
 
     @property
     def is_write(self):
@@ -627,7 +629,11 @@ def parse(text):
         st.error = None
     except SqlError as e:
         st = Stmt(text)
-        st.kind = 'unknown'
+        # classify by the leading keyword: an unparsed SELECT/PRAGMA is still a read
+        lead = text.strip().split(None, 1)[0].upper() if text.strip() else ''
+        st.kind = {'SELECT': 'select', 'PRAGMA': 'pragma', 'EXPLAIN': 'pragma', 'ANALYZE': 'pragma',
+                   'WITH': 'unknown'}.get(lead, 'unknown')
+        st.partial = True
         st.error = str(e)
     st.text = text
     if st.kind == 'delete' and st.where is not None:
